@@ -92,7 +92,7 @@ example : freeAllEntry 1000 512 0 = 512 ∧ freeAllEntry 1000 512 1 = 488 ∧ fr
     managed count is free (`LowerInv.outside`, C01.fresh_in_range). -/
 theorem trees_new_establishes (c : Cfg) (ok : CfgOk c) (m : Mem) (inv : LowerInv c m) (hsz : m.trees.size = c.ntrees)
     (hss : m.slots.size = c.nslots) (habs : ∀ s, SlotAbsent m s) :
-    Runs m (Trees.init c) (fun _ m' => UpperInv0 c (fun _ => False) m' ∧ SameAlloc m m') :=
+    Runs m (Trees.init c) (fun _ m' => UpperInv0 c (fun _ => 0) m' ∧ SameAlloc m m') :=
   trees_init_spec ok m inv hsz hss habs
 
 
@@ -151,7 +151,7 @@ example : ∀ s, SlotAbsent mTiny s := by
     and lower invariants hold, nothing is hidden, and a frame is allocated iff it lies at or
     beyond the managed count — every managed frame is free, no other frame is. -/
 theorem free_all_establishes (c : Cfg) (ok : CfgOk c) (m : Mem) (hs : ShapeOk c m) (habs : ∀ s, SlotAbsent m s) :
-    Runs m (initProg c .freeAll) (fun _ m' => UpperInv0 c (fun _ => False) m' ∧
+    Runs m (initProg c .freeAll) (fun _ m' => UpperInv0 c (fun _ => 0) m' ∧
       ∀ f, m'.allocated c.geom f = decide (c.frames ≤ f)) := init_freeAll_spec ok m hs habs
 
 /-- **`Init::AllocAll`, every frame count**: every frame is allocated (so nothing can be
@@ -159,7 +159,7 @@ theorem free_all_establishes (c : Cfg) (ok : CfgOk c) (m : Mem) (hs : ShapeOk c 
     (so it can be freed once at huge order) and every other managed frame can be freed at base
     order (`PutAllowed` of C02); afterwards the counts are those of the allocation state (C04). -/
 theorem alloc_all_establishes (c : Cfg) (ok : CfgOk c) (m : Mem) (hs : ShapeOk c m) (habs : ∀ s, SlotAbsent m s) :
-    Runs m (initProg c .allocAll) (fun _ m' => UpperInv0 c (fun _ => False) m' ∧
+    Runs m (initProg c .allocAll) (fun _ m' => UpperInv0 c (fun _ => 0) m' ∧
       (∀ f, m'.allocated c.geom f = true) ∧
       (∀ j, j < c.frames / c.geom.hugeFrames → m'.whole j = true)) := init_allocAll_spec ok m hs habs
 
